@@ -261,8 +261,8 @@ def c10(case, run, limits=None):
             for f, r in zip(res["facts"], res["results"]):
                 if f["req"] == "place" and r is True:
                     last_placed["%d/%s" % (f["strategy"], f["sel"])] = f["clock"]
-        if step[0] == "stream" and prev is not None:
-            old = {o["o"] for o in prev["orders"]}
+        if step[0] == "stream":
+            old = {o["o"] for o in prev["orders"]} if prev is not None else set()      # right after a restart nothing is known locally
             for o in ob["orders"]:
                 if o["o"] not in old:
                     last_placed["%d/%s" % (o["strategy"], o["sel"])] = ob["clock"]
